@@ -821,6 +821,7 @@ func (f *Frugal) UnderlyingType(t *Type) *Type {
 	if t == nil {
 		panic("Attempted to get underlying type of nil type")
 	}
+	owner := f
 	typedefIndex := f.typedefIndex
 	include := t.IncludeName()
 	if include != "" {
@@ -829,10 +830,12 @@ func (f *Frugal) UnderlyingType(t *Type) *Type {
 			return t
 		}
 		typedefIndex = parsed.typedefIndex
+		owner = parsed
 	}
 	if typedef, ok := typedefIndex[t.ParamName()]; ok {
-		// Recursively call underlying type to handle typedef nesting.
-		return f.UnderlyingType(typedef.Type)
+		// Recursively call underlying type to handle typedef nesting. The
+		// definition is resolved in the file which declares the typedef.
+		return owner.UnderlyingType(typedef.Type)
 	}
 	return t
 }
@@ -1145,7 +1148,7 @@ func (f *Frugal) validateTypedefs() error {
 			return fmt.Errorf("Invalid alias %s, type %s doesn't exist",
 				typedef.Name, typedef.Type.Name)
 		}
-		if f.typedefCycle(typedef.Type, map[string]bool{typedef.Name: true}) {
+		if f.typedefCycle(typedef.Type, map[*TypeDef]bool{typedef: true}) {
 			return fmt.Errorf("Invalid alias %s, its definition refers back to itself",
 				typedef.Name)
 		}
@@ -1156,33 +1159,33 @@ func (f *Frugal) validateTypedefs() error {
 // typedefCycle reports whether expanding t, following typedefs the way
 // UnderlyingType does and descending into container element types, leads back
 // to a typedef that is already being expanded.
-func (f *Frugal) typedefCycle(t *Type, expanding map[string]bool) bool {
+func (f *Frugal) typedefCycle(t *Type, expanding map[*TypeDef]bool) bool {
 	if t == nil {
 		return false
 	}
 	if f.typedefCycle(t.KeyType, expanding) || f.typedefCycle(t.ValueType, expanding) {
 		return true
 	}
+	owner := f
 	typedefIndex := f.typedefIndex
-	key := t.ParamName()
 	if include := t.IncludeName(); include != "" {
 		parsed, ok := f.ParsedIncludes[include]
 		if !ok {
 			return false
 		}
 		typedefIndex = parsed.typedefIndex
-		key = include + "." + key
+		owner = parsed
 	}
 	typedef, ok := typedefIndex[t.ParamName()]
 	if !ok {
 		return false
 	}
-	if expanding[key] {
+	if expanding[typedef] {
 		return true
 	}
-	expanding[key] = true
-	defer delete(expanding, key)
-	return f.typedefCycle(typedef.Type, expanding)
+	expanding[typedef] = true
+	defer delete(expanding, typedef)
+	return owner.typedefCycle(typedef.Type, expanding)
 }
 
 func (f *Frugal) validateStructs() error {
